@@ -40,7 +40,7 @@ const RP: &str = "example.com";
 pub fn cases(tier: Tier) -> Vec<Case> {
     let mut v = vec![];
     for c in super::c04::cases() {
-        if c.level != 0 || c.arc_mutex || c.ext || c.wire != 0 {
+        if c.level != 0 || c.arc_mutex || c.ext || c.wire != 0 || c.flip {
             continue;
         }
         // quick: the presence capability only shows in get_info; keep one value for the ceremonies
@@ -76,7 +76,7 @@ pub fn cases(tier: Tier) -> Vec<Case> {
         for presence_cap in [false, true] {
             for memory_store in [false, true] {
                 for prf in [false, true] {
-                    let cfg = C04Case { op: Op::Get, rk: false, up: true, uv: false, cap, presence_cap, outcome: 3, pin: false, arc_mutex: false, level: 0, uvreq: 0, ext: false, wire: 0 };
+                    let cfg = C04Case { op: Op::Get, rk: false, up: true, uv: false, cap, presence_cap, outcome: 3, pin: false, arc_mutex: false, level: 0, uvreq: 0, ext: false, wire: 0, flip: false };
                     v.push(Case { api: "get_info".into(), cfg, content: Content::NoMatch, memory_store, prf, unknown_type: false, empty_list: false, fault: 0 });
                 }
             }
